@@ -74,7 +74,8 @@ theorem setupImpl_persisted (P : Project) (g : G) (cfg : Cfg) (s : Sess) (t : Ta
         simp only at h
         split at h
         · rename_i hall
-          exact ⟨hp, hall⟩
+          simp only [Bool.and_eq_true] at hp
+          exact ⟨hp.1, hall⟩
         · cases h
       · cases h
     · split at h
